@@ -5,7 +5,7 @@
    slot, no release of a block that still holds items), the ledger afterwards holds exactly the object's buffers with
    exactly the slots its counters imply constructed, and the destructor leaves the ledger empty. *)
 From Coq Require Import ZArith NArith List Bool Lia.
-From DS Require Import RunnerLib LedgerCore LedgerCoreProofs LedgerKll LedgerKllProofs LedgerTup LedgerTupProofs LedgerFi LedgerFiProofs LedgerDefs.
+From DS Require Import RunnerLib LedgerCore LedgerCoreProofs LedgerKll LedgerKllProofs LedgerTup LedgerTupProofs LedgerFi LedgerFiProofs LedgerReq LedgerReqProofs LedgerDefs.
 Import ListNotations.
 Local Open Scope Z_scope.
 
@@ -15,6 +15,7 @@ Definition ObjInv (o : obj) : Prop :=
   | OK s => KInv s (o_led o) /\ k_blk s <> None
   | OT s => TInv s (o_led o) /\ t_blk s <> None
   | OF s => FInv s (o_led o) /\ f_blk s <> None
+  | OQ s => QInv s /\ o_led o = q_ledger s
   end.
 
 Lemma judge_ok X L es L' : apply_all X L es = Some L' -> judge X L es = (L', false).
@@ -41,6 +42,16 @@ Proof.
     unfold ObjInv. simpl. split; auto. unfold new_tup in E. injection E as <- _. simpl. congruence.
 Qed.
 
+Lemma obj_new_req_ok p1 p2 e o bad : obj_new_req p1 p2 e = Some (o, bad) -> ObjInv o /\ bad = false.
+Proof.
+  unfold obj_new_req. destruct ((p1 <? 4) || (255 <? p1) || Z.odd p1 || (p2 <? 0) || (1 <? p2)) eqn:Hc; [discriminate|].
+  destruct (new_req (zN p1) (p2 =? 1) (map zN e)) as [s b] eqn:E.
+  assert (Hk : (1 <= zN p1)%N).
+  { repeat (apply orb_false_elim in Hc; destruct Hc as [Hc ?]). apply Z.ltb_ge in Hc. unfold zN. lia. }
+  destruct (new_req_ok _ _ _ s b Hk E) as [HQ ->]. intros E2; injection E2 as <- <-. split; auto.
+  unfold ObjInv, mkq. simpl. auto.
+Qed.
+
 Lemma kll_update_blk s s' es : kll_update s = Some (s', es) -> k_blk s' <> None.
 Proof.
   unfold kll_update. destruct (k_blk s); [|discriminate].
@@ -63,6 +74,7 @@ Qed.
 Definition update_aborts (o : obj) (v w : Z) (e : line) : Prop :=
   match o_st o, e with
   | OF s, h :: _ => fim_update s v (zN h) (zN w) = FAbort
+  | OQ s, _ => req_update s = None
   | _, _ => False
   end.
 
@@ -72,7 +84,7 @@ Lemma obj_update_ok o v w e : ObjInv o ->
   | URefused o' bad => ObjInv o' /\ (bad = false \/ update_aborts o v w e)
   end.
 Proof.
-  unfold ObjInv, obj_update, update_aborts. destruct (o_st o) as [s|s|s] eqn:Hs.
+  unfold ObjInv, obj_update, update_aborts. destruct (o_st o) as [s|s|s|s] eqn:Hs.
   - intros [HI Hnn]. destruct (kll_update s) as [[s' es]|] eqn:E.
     + destruct (kll_update_ok [] s _ s' es HI E) as (L' & HL' & HI').
       rewrite (judge_ok _ _ _ _ HL'). simpl. repeat split; auto. eapply kll_update_blk; eauto.
@@ -88,11 +100,14 @@ Proof.
     + destruct H as (L' & HL' & HI' & Hb'). rewrite (judge_ok _ _ _ _ HL'). simpl. repeat split; auto.
     + rewrite Hs. auto.
     + rewrite Hs. auto.
+  - intros [HQ HL]. destruct (req_update s) as [[s' bad]|] eqn:E.
+    + destruct (req_update_ok s s' bad HQ E) as [HQ' ->]. unfold mkq. simpl. auto.
+    + rewrite Hs. destruct e; auto.
 Qed.
 
 Lemma obj_copy_ok o c bad : ObjInv o -> obj_copy o = Some (c, bad) -> ObjInv c /\ bad = false.
 Proof.
-  unfold ObjInv, obj_copy. destruct (o_st o) as [s|s|s] eqn:Hs.
+  unfold ObjInv, obj_copy. destruct (o_st o) as [s|s|s|s] eqn:Hs.
   - intros [HI Hnn]. destruct (kll_copy s) as [[s' es]|] eqn:E; [|discriminate].
     destruct (kll_copy_ok s _ s' es HI E) as (L' & HL' & HI').
     rewrite (judge_ok _ _ _ _ HL'). intros E2; injection E2 as <- <-. simpl. repeat split; auto.
@@ -104,24 +119,28 @@ Proof.
   - intros [HI Hnn]. destruct (fim_copy s) as [[s' es]|] eqn:E; [|discriminate].
     destruct (fim_copy_ok s _ s' es HI E) as (L' & HL' & HI' & Hb').
     rewrite (judge_ok _ _ _ _ HL'). intros E2; injection E2 as <- <-. simpl. repeat split; auto.
+  - intros [HQ HL]. destruct (req_copy s) as [s' b] eqn:E. destruct (req_copy_ok s s' b HQ E) as [HQ' ->].
+    intros E2; injection E2 as <- <-. unfold mkq. simpl. auto.
 Qed.
 
 (* the destructor: accepted, and nothing is left in the object's ledger *)
 Lemma obj_destroy_ok o : ObjInv o -> obj_destroy o = false.
 Proof.
-  unfold ObjInv, obj_destroy. destruct (o_st o) as [s|s|s].
+  unfold ObjInv, obj_destroy. destruct (o_st o) as [s|s|s|s].
   - intros [HI _]. rewrite (judge_ok _ _ _ _ (kll_destroy_ok [] s _ HI)). reflexivity.
   - intros [HI _]. rewrite (judge_ok _ _ _ _ (tup_destroy_ok [] s _ HI)). reflexivity.
   - intros [HI _]. rewrite (judge_ok _ _ _ _ (fim_destroy_ok [] s _ HI)). reflexivity.
+  - intros [HQ _]. now apply req_destroy_ok.
 Qed.
 
 (* a moved-from object owns nothing: destroying it touches nothing *)
 Lemma obj_destroy_moved_from o : obj_destroy (obj_moved_from o) = false.
 Proof.
-  unfold obj_destroy, obj_moved_from. destruct (o_st o) as [s|s|s]; simpl.
+  unfold obj_destroy, obj_moved_from. destruct (o_st o) as [s|s|s|s]; simpl.
   - unfold kll_destroy. simpl. reflexivity.
   - unfold tup_destroy. simpl. reflexivity.
   - unfold fim_destroy. simpl. reflexivity.
+  - reflexivity.
 Qed.
 
 Lemma obj_copy_assign_ok r s o' bad : ObjInv r -> ObjInv s -> obj_copy_assign r s = Some (o', bad) -> ObjInv o' /\ bad = false.
@@ -134,7 +153,7 @@ Qed.
 
 Lemma obj_reset_ok o o' bad : ObjInv o -> obj_reset o = Some (o', bad) -> ObjInv o' /\ bad = false.
 Proof.
-  unfold ObjInv, obj_reset. destruct (o_st o) as [s|s|s]; try tauto; try discriminate.
+  unfold ObjInv, obj_reset. destruct (o_st o) as [s|s|s|s]; try tauto; try discriminate.
   intros [HI Hnn]. destruct (tup_reset s) as [[s' es]|] eqn:E; [|discriminate].
   destruct (tup_reset_ok [] s _ s' es HI E) as (L' & HL' & HI').
   rewrite (judge_ok _ _ _ _ HL'). intros E2; injection E2 as <- <-. simpl. repeat split; auto.
@@ -144,7 +163,7 @@ Qed.
 
 Lemma obj_trim_ok o o' bad : ObjInv o -> obj_trim o = Some (o', bad) -> ObjInv o' /\ bad = false.
 Proof.
-  unfold ObjInv, obj_trim. destruct (o_st o) as [s|s|s]; try tauto; try discriminate.
+  unfold ObjInv, obj_trim. destruct (o_st o) as [s|s|s|s]; try tauto; try discriminate.
   intros [HI Hnn]. destruct (tup_trim s) as [[s' es]|] eqn:E; [|discriminate].
   destruct (tup_trim_ok [] s _ s' es HI E) as (L' & HL' & HI').
   rewrite (judge_ok _ _ _ _ HL'). intros E2; injection E2 as <- <-. simpl. repeat split; auto.
@@ -185,6 +204,7 @@ Definition merge_aborts (r s : obj) : Prop :=
   match o_st r, o_st s with
   | OK a, OK b => snd (kll_merge a b) = Abort
   | OF a, OF b => snd (fim_merge a b) = true
+  | OQ a, OQ b => req_merge a b = None
   | _, _ => False
   end.
 
@@ -195,7 +215,7 @@ Lemma obj_merge_ok r s u : ObjInv r -> ObjInv s -> obj_merge r s = Some u ->
   end.
 Proof.
   unfold ObjInv, obj_merge, merge_aborts.
-  destruct (o_st r) as [a|a|a] eqn:Hr; destruct (o_st s) as [b|b|b] eqn:Hs; try discriminate.
+  destruct (o_st r) as [a|a|a|a] eqn:Hr; destruct (o_st s) as [b|b|b|b] eqn:Hs; try discriminate.
   - intros [HIa Hna] [HIb Hnb].
     destruct (kll_merge a b) as [[a' es] oc] eqn:E.
     destruct (kll_merge_ok a b _ _ a' es oc HIa HIb Hna E) as (L' & HL' & HI').
@@ -206,11 +226,15 @@ Proof.
     destruct (fim_merge_ok a b _ _ a' es ok ab HIa HIb Hna E) as (L' & HL' & HI' & Hb').
     rewrite (judge_ok _ _ _ _ HL'). intros E2; injection E2 as <-.
     destruct ok; simpl; repeat split; auto. destruct ab; auto.
+  - intros [HQa HLa] [HQb HLb]. destruct (req_merge a b) as [[a' bad]|] eqn:E.
+    + destruct (req_merge_ok a b a' bad HQa HQb E) as [HQ' ->]. intros E2; injection E2 as <-. unfold mkq. simpl. auto.
+    + destruct (Bool.eqb (q_hra a) (q_hra b)); [|discriminate]. intros E2; injection E2 as <-. rewrite Hr. auto.
 Qed.
 
 (* ---- every object reachable by any history ---- *)
 Inductive reach : obj -> Prop :=
 | R_new kind p1 p2 o bad : obj_new kind p1 p2 = Some (o, bad) -> reach o
+| R_new_req p1 p2 e o bad : obj_new_req p1 p2 e = Some (o, bad) -> reach o
 | R_update o v w e o' bad : reach o -> obj_update o v w e = UDone o' bad -> reach o'
 | R_update_refused o v w e o' bad : reach o -> obj_update o v w e = URefused o' bad -> reach o'
 | R_copy o c bad : reach o -> obj_copy o = Some (c, bad) -> reach c
@@ -224,6 +248,7 @@ Theorem reach_inv o : reach o -> ObjInv o.
 Proof.
   induction 1.
   - eapply (obj_new_ok kind p1 p2); eauto.
+  - eapply (obj_new_req_ok p1 p2 e); eauto.
   - pose proof (obj_update_ok o v w e IHreach) as H1. rewrite H0 in H1. tauto.
   - pose proof (obj_update_ok o v w e IHreach) as H1. rewrite H0 in H1. tauto.
   - eapply (obj_copy_ok o); eauto.
@@ -236,16 +261,17 @@ Qed.
 
 (* what is alive at rest: exactly the retained items, in a buffer of exactly the capacity the object records *)
 Definition capacity_of (o : obj) : N :=
-  match o_st o with OK s => k_cap s | OT s => t_size s | OF s => f_size s end.
+  match o_st o with OK s => k_cap s | OT s => t_size s | OF s => f_size s | OQ s => sum_cap (q_comps s) end.
 
 (* constructed slots of the item buffer: retained items (KLL), retained entries (theta/tuple), slots with states_ > 0 (fi) *)
 Definition constructed_of (o : obj) : N :=
-  match o_st o with OK s => k_retained s | OT s => t_num s | OF s => count_active (f_slots s) end.
+  match o_st o with OK s => k_retained s | OT s => t_num s | OF s => count_active (f_slots s) | OQ s => sum_num (q_comps s) end.
 
 Lemma inv_live o : ObjInv o -> live_slots (o_led o) = constructed_of o /\ item_slots (o_led o) = capacity_of o.
 Proof.
-  unfold ObjInv, constructed_of, capacity_of. destruct (o_st o) as [s|s|s].
+  unfold ObjInv, constructed_of, capacity_of. destruct (o_st o) as [s|s|s|s].
   - intros [HI Hnn]. destruct (k_blk s) as [b|] eqn:Hb; [|congruence]. eapply kll_live; eauto.
   - intros [HI Hnn]. apply tup_live; auto.
   - intros [HI Hnn]. destruct (f_blk s) as [[[kb vb] sb]|] eqn:Hb; [|congruence]. eapply fim_live; eauto.
+  - intros [HQ ->]. split; [now apply req_live|now apply req_caps].
 Qed.
